@@ -214,7 +214,12 @@ where
     let dir = tempfile::tempdir().unwrap();
     let path = dir.path().join("rt.bin");
     let (ws, rs) = new_stream::<T>();
-    let mut sink = FileSink::new(rs, &path, Mode::Create).unwrap();
+    // Every other round trip overwrites an existing, longer file.
+    let overwrite = (vals.len() + chunk) % 2 == 1;
+    if overwrite {
+        std::fs::write(&path, vec![0xA5u8; vals.len() * T::size() + 13]).unwrap();
+    }
+    let mut sink = FileSink::new(rs, &path, if overwrite { Mode::Overwrite } else { Mode::Create }).unwrap();
     let mut pos = 0;
     let mut guard = 0;
     while pos < vals.len() && guard < 100000 {
@@ -316,7 +321,7 @@ pub fn cmd_sink_modes(args: &[String]) -> i32 {
                 let path = dir.path().join("out.bin");
                 let old: Vec<u8> = match initial {
                     "empty" => vec![],
-                    "nonempty" | "unwritable" => vec![9, 8, 7],
+                    "nonempty" | "unwritable" => vec![9, 8, 7, 6, 5, 4, 3],
                     _ => vec![],
                 };
                 match initial {
